@@ -164,10 +164,28 @@ def analyse_tree(tree: ast.Module, relpath: str):
                     key_txt += " " + src(d)
             val = n.value
             val_names = set(_names(val))
-            for nm in list(val_names):
-                for d in local_defs.get(nm, []):
-                    if d is not val:
-                        val_names |= _names(d)
+            # data AND control dependences of the stored value (fixpoint over the local definitions): a definition that only happens
+            # under `if <param>:` makes the value depend on that parameter although the parameter is not an operand
+            def_stmts = {}
+            for a_ in ast.walk(fn):
+                if isinstance(a_, ast.Assign) and len(a_.targets) == 1 and isinstance(a_.targets[0], ast.Name):
+                    def_stmts.setdefault(a_.targets[0].id, []).append(a_)
+                elif isinstance(a_, ast.AugAssign) and isinstance(a_.target, ast.Name):
+                    def_stmts.setdefault(a_.target.id, []).append(a_)
+            grow = True
+            while grow:
+                grow = False
+                for nm in list(val_names):
+                    for st_ in def_stmts.get(nm, []):
+                        new_ = set(_names(st_.value)) if st_.value is not val else set()
+                        q_ = getattr(st_, "_parent", None)
+                        while q_ is not None and q_ is not fn:
+                            if isinstance(q_, (ast.If, ast.While)) and q_ is not guard:
+                                new_ |= _names(q_.test)
+                            q_ = getattr(q_, "_parent", None)
+                        if new_ - val_names:
+                            val_names |= new_
+                            grow = True
             where = f"{relpath}:{fn.name}"
             missing = [p_ for p_ in params if p_ in val_names and p_ not in key_names]
             if missing:
